@@ -523,7 +523,7 @@ def gen_sys_cases(ctx):
 def sys_differs(ctx, c):
     a = run_any(c)
     b, ties = CS.canon_model(ctx.lean([CS.model_line(c)])[0])
-    return ties == 0 and (a != b or bool(CS.spec_check(c, a)))
+    return ties == 0 and (a != b or bool(CS.spec_check(c, a, b)))
 
 
 def run_sys(ctx, nproc):
@@ -544,7 +544,7 @@ def run_sys(ctx, nproc):
         for tok in a.split(" "):
             if tok.startswith(("req:", "rc:")):
                 ctx.kind("sys-outcome:" + ":".join(tok.split(":")[:2]))
-        sv = CS.spec_check(c, a) if c["stream"].startswith("sensible") else [x for x in CS.spec_check(c, a) if x[0] != "fabricated-data"]
+        sv = CS.spec_check(c, a, b) if c["stream"].startswith("sensible") else [x for x in CS.spec_check(c, a, b) if x[0] != "fabricated-data"]
         for clause, text in sv:
             k = f"{clause}:{c['tr']}"
             if k not in viol or len(c["ev"]) < len(viol[k][0]["ev"]):
@@ -557,7 +557,8 @@ def run_sys(ctx, nproc):
             if k not in broken or len(c["ev"]) < len(broken[k][0]["ev"]):
                 broken[k] = (c, a, b)
     for k, (c, a, b, clause, text) in sorted(viol.items()):
-        c2 = CS.shrink(c, lambda x: any(cl == clause for cl, _ in CS.spec_check(x, run_any(x))))
+        c2 = CS.shrink(c, lambda x: any(cl == clause for cl, _ in CS.spec_check(
+            x, run_any(x), CS.canon_model(ctx.lean([CS.model_line(x)])[0])[0])))
         a2 = run_any(c2)
         b2 = CS.canon_model(ctx.lean([CS.model_line(c2)])[0])[0]
         ctx.disagree(f"c08sys:{clause}:{c2['tr']}:mr={c2['mr']}:{' '.join(c2['ev'])}",
@@ -588,7 +589,7 @@ def _replay_sys(ctx, c):
     print("events:", " ".join(c["ev"]))
     print("impl  :", a)
     print("model :", b, f"(ties {ties})")
-    v = CS.spec_check(c, a)
+    v = CS.spec_check(c, a, None if ties else b)
     for clause, text in v:
         print(f"property clause violated by the implementation: {clause}: {text}")
     return 1 if (v or (a != b and not ties)) else 0
